@@ -82,6 +82,12 @@ def _table(rng):
         all_names += here
         if not any(ch == c for ch in cols["chromosome"]):
             add("Antitarget", 0.0)
+    if rng.random() < 0.5:
+        # masked bins (weight exactly 0) among the ignored-name bins -- also those lying between a gene's first and last bin
+        # (named bins keep positive weights: the weight-averaged depth of an all-masked gene part is undefined)
+        for k, g in enumerate(cols["gene"]):
+            if g in IGN and rng.random() < 0.4:
+                cols["weight"][k] = 0.0
     return cols
 
 
